@@ -61,6 +61,39 @@ elif "cannot be enabled when using `no_std`" not in se:
 else:
     observed["build.serialize-nostd"] = "refused-by-compile_error"
 
+# ---------------------------------------------------------------- 1b. every other combination of the declared features
+# The four feature sets above are the ones the statement names. Cargo.toml may declare further features; the refusal
+# "serialize without std" and the buildability of everything else are checked for every subset of the declared features
+# (explicit `--no-default-features --features <subset>`; optional-dependency features excluded; at most 5 features).
+try:
+    import re as _re
+    txt = open(os.path.join(REPO, "Cargo.toml")).read()
+    sec = txt.split("[features]", 1)[1].split("\n[", 1)[0]
+    declared = [m.group(1) for m in _re.finditer(r"^\s*([A-Za-z0-9_-]+)\s*=", sec, _re.M) if m.group(1) != "default"]
+except Exception:
+    declared = ["std", "serialize"]
+declared = sorted(set(declared))[:5]
+observed["features.declared"] = ",".join(declared)
+done = {(): "nostd", ("serialize",): "serialize-nostd", ("std",): "default", ("serialize", "std"): "serialize"}
+subsets = 0
+for mask in range(1 << len(declared)):
+    sub = tuple(sorted(f for k, f in enumerate(declared) if mask >> k & 1))
+    if sub in done:
+        continue
+    subsets += 1
+    name = "subset-" + ("+".join(sub) or "none")
+    rc, se = lib_build(name, ["--no-default-features", "--features", ",".join(sub)])
+    if "serialize" in sub and "std" not in sub:
+        if rc == 0:
+            violations.append(("c18:build:serialize-without-std-accepted", {"features": list(sub), "what": "--no-default-features --features %s built successfully" % ",".join(sub)}))
+        elif "cannot be enabled when using `no_std`" not in se and rc_default == 0:
+            violations.append(("c18:build:serialize-without-std-fails-without-the-crate-diagnostic", {"features": list(sub), "stderr": se[-1500:]}))
+        else:
+            observed["build." + name] = "refused-by-compile_error"
+    elif rc != 0 and rc_default == 0:
+        violations.append(("c18:build:feature-subset-fails", {"features": list(sub), "stderr": se[-1500:]}))
+observed["features.other-subsets-built"] = subsets
+
 # ---------------------------------------------------------------- 2. differential digests
 ncorpus = 3000 if tier == "quick" else 60000
 # strings that are not cipher-suite names, looked up by name in every configuration (2 routes each)
